@@ -105,6 +105,38 @@ func (c privCodec) Read(r *avro.ReadBuf, p unsafe.Pointer) error {
 	return nil
 }
 
+// c12Slow is a registered type whose codec builder takes its time (it yields the
+// processor repeatedly): a codec build that contains it is in progress for a while.
+type c12Slow int64
+
+var c12SlowType = reflect.TypeOf(c12Slow(0))
+
+func init() {
+	avro.Register(c12SlowType, func(s avro.Schema, typ reflect.Type, omit bool) (avro.Codec, error) {
+		for i := 0; i < 20; i++ {
+			runtime.Gosched()
+		}
+		return avro.Int64Codec{}, nil
+	})
+	avro.RegisterSchema(c12SlowType, avro.Schema{Type: "long"})
+}
+
+// c12DeepType: [][]...[]c12Slow, depth levels deep.
+var c12DeepTypes sync.Map
+
+func c12DeepType(depth int) reflect.Type {
+	if t, ok := c12DeepTypes.Load(depth); ok {
+		return t.(reflect.Type)
+	}
+	t := c12SlowType
+	for i := 0; i < depth; i++ {
+		t = reflect.SliceOf(t)
+	}
+	t = reflect.StructOf([]reflect.StructField{{Name: "D", Type: t, Tag: `json:"d"`}})
+	c12DeepTypes.Store(depth, t)
+	return t
+}
+
 // fixtures: built once, sequentially
 type c12Fixture struct {
 	name     string
@@ -209,6 +241,16 @@ func runC12(c c12Case) (bool, []string, error) {
 	start := make(chan struct{})
 	errs := make(chan error, n*64)
 	var wg sync.WaitGroup
+	// a struct type of this case's own that goroutine 0 builds codecs for (its build
+	// is in progress for a while: it holds a c12Slow) while goroutine 1 registers a
+	// codec for it. Whatever the builds in flight see, a build that STARTS after the
+	// registration has returned honours it (checked when all goroutines are done).
+	seq := c12FreshSeq.Add(1)
+	contested := reflect.StructOf([]reflect.StructField{
+		{Name: fmt.Sprintf("V%d", seq), Type: reflect.TypeOf(int64(0)), Tag: `json:"v"`},
+		{Name: "S", Type: c12SlowType, Tag: `json:"s"`},
+	})
+	contestedHolder := reflect.StructOf([]reflect.StructField{{Name: "F", Type: contested, Tag: `json:"f"`}, {Name: "Fs", Type: reflect.SliceOf(contested), Tag: `json:"fs"`}})
 	for g := 0; g < n; g++ {
 		g := g
 		prog := c.Programs[g]
@@ -216,6 +258,21 @@ func runC12(c c12Case) (bool, []string, error) {
 		go func() {
 			defer wg.Done()
 			<-start
+			switch g {
+			case 0:
+				for k := 0; k < 3; k++ {
+					_ = protect(func() error {
+						zero := reflect.New(contestedHolder).Elem().Interface()
+						if s, err := avro.SchemaForType(zero); err == nil {
+							_, _ = s.Codec(zero)
+						}
+						return nil
+					})
+				}
+			case 1:
+				avro.Register(contested, func(s avro.Schema, typ reflect.Type, omit bool) (avro.Codec, error) { return privCodec{}, nil })
+				avro.RegisterSchema(contested, avro.Schema{Type: "long"})
+			}
 			// every goroutine first registers a FRESH type of its own, all released by
 			// the same barrier (so the registrations overlap), and checks at the end
 			// of its program that its registration is in force
@@ -257,6 +314,11 @@ func runC12(c c12Case) (bool, []string, error) {
 		}
 		return true, nil, err
 	}
+	if n >= 2 {
+		if err := protect(func() error { return c12CheckContested(contested, contestedHolder) }); err != nil {
+			return true, nil, err
+		}
+	}
 	close(banks)
 	for b := range banks {
 		b.Close()
@@ -279,7 +341,7 @@ func runC12(c c12Case) (bool, []string, error) {
 			switch op.Kind {
 			case "schema", "register":
 				touch("registry", op.Kind)
-			case "codec", "evolved", "exotic":
+			case "codec", "evolved", "exotic", "deepbuild":
 				touch("registry", op.Kind)
 			case "decode":
 				touch("codec", op.Kind)
@@ -659,6 +721,17 @@ func c12Run(g int, op c12Op, banks chan *avro.ResourceBank) error {
 		if i != len(f.abs) {
 			return fmt.Errorf("%d records read, %d written", i, len(f.abs))
 		}
+	case "deepbuild":
+		// a codec for a type nested some two thousand levels deep: builds, as it does alone
+		typ := c12DeepType(2100 + 97*(op.Arg%9))
+		zero := reflect.New(typ).Elem().Interface()
+		s, err := avro.SchemaForType(zero)
+		if err != nil {
+			return fmt.Errorf("SchemaForType of a deeply nested type fails here, alone it succeeds: %v", err)
+		}
+		if _, err := s.Codec(zero); err != nil {
+			return fmt.Errorf("Schema.Codec of a deeply nested type fails here, alone it succeeds: %v", err)
+		}
 	case "logical":
 		// date / timestamp columns decoded and encoded with shared codecs, every goroutine its own values
 		li := op.Arg % len(c12Logical)
@@ -840,10 +913,36 @@ func c12Run(g int, op c12Op, banks chan *avro.ResourceBank) error {
 	return nil
 }
 
+// c12CheckContested: the registration made during the case governs builds that start now.
+func c12CheckContested(contested, holder reflect.Type) error {
+	zero := reflect.New(holder).Elem().Interface()
+	s, err := avro.SchemaForType(zero)
+	if err != nil {
+		return fmt.Errorf("after a codec was registered for a struct type while another goroutine was building codecs that contain it: SchemaForType: %v", err)
+	}
+	b, _ := s.Marshal()
+	if !strings.Contains(string(b), `{"name":"f","type":"long"}`) {
+		return fmt.Errorf("a schema was registered for a struct type while another goroutine was building codecs that contain it; generated afterwards, the enclosing schema does not show it: %s", b)
+	}
+	codec, err := s.Codec(zero)
+	if err != nil {
+		return fmt.Errorf("Schema.Codec after the contested registration: %v", err)
+	}
+	v := reflect.New(holder)
+	v.Elem().Field(0).Field(0).SetInt(77)
+	wb := avro.NewWriteBuf(nil)
+	codec.Write(wb, v.UnsafePointer())
+	want := append(ref.AppendLong(nil, 77^privMask), 0)
+	if !bytes.Equal(wb.Bytes(), want) {
+		return fmt.Errorf("a codec was registered for a struct type while another goroutine was building codecs that contain it; a codec built afterwards writes % x, the registered codec writes % x (the registration, which had returned, is not honoured)", wb.Bytes(), want)
+	}
+	return nil
+}
+
 func drawC12(t *rapid.T) c12Case {
 	var c c12Case
 	n := gen.UniformRange(t, "goroutines", 2, 8)
-	kinds := []string{"schema", "codec", "register", "decode", "encode", "readfile", "closebanks", "time", "decode", "encode", "time", "readfile", "encodefile", "readabort", "evolved", "exotic", "readdamaged", "logical", "logical"}
+	kinds := []string{"schema", "codec", "register", "decode", "encode", "readfile", "closebanks", "time", "decode", "encode", "time", "readfile", "encodefile", "readabort", "evolved", "exotic", "readdamaged", "logical", "logical", "deepbuild"}
 	for g := 0; g < n; g++ {
 		var p []c12Op
 		m := gen.UniformRange(t, "nops", 5, 40)
@@ -857,7 +956,10 @@ func drawC12(t *rapid.T) c12Case {
 		}
 		c.Programs = append(c.Programs, p)
 	}
-	if gen.Uniform(t, "burst", 3) == 0 {
+	if gen.Uniform(t, "burstDeep", 12) == 0 {
+		// every goroutine starts with the same deep build: several are in progress at once
+		c.Burst = &c12Op{Kind: "deepbuild", Arg: gen.Uniform(t, "burstArg", 12)}
+	} else if gen.Uniform(t, "burst", 3) == 0 {
 		c.Burst = &c12Op{Kind: kinds[gen.Uniform(t, "burstKind", len(kinds))], Fixture: gen.Uniform(t, "burstFixture", 7), Arg: gen.Uniform(t, "burstArg", 12)}
 	}
 	return c
